@@ -571,7 +571,9 @@ impl<'c, KD: Kind, const N: usize> MapEng<'c, KD, N> {
         self.op_unchecked = false;
         self.op_readonly = matches!(opi, OP_GET | OP_GET_KV | OP_CONTAINS | OP_INDEX);
         self.viol0 = tl::ledger_violation_count();
-        self.quiet0 = if self.cx.armed == Prop::C09 && matches!(opi, OP_GET_MUT | OP_INDEX_MUT | OP_REMOVE | OP_REMOVE_ENTRY | OP_RETAIN | OP_WALK | OP_ENTRY | OP_DISJOINT | OP_CHECKED | OP_FMT | OP_EQ | OP_CAP) {
+        // (only for payloads whose values show every write - a zero-sized value looks the same
+        // after an overwrite - and never for calls that are insertions by intent)
+        self.quiet0 = if self.cx.armed == Prop::C09 && KD::vnorm(1) != 0 && matches!(opi, OP_GET_MUT | OP_INDEX_MUT | OP_REMOVE | OP_REMOVE_ENTRY | OP_RETAIN | OP_WALK | OP_ENTRY | OP_DISJOINT | OP_FMT | OP_EQ | OP_CAP) {
             Some([self.slots[0].as_ref().map(|s| s.model.clone()), self.slots[1].as_ref().map(|s| s.model.clone())])
         } else {
             None
